@@ -55,7 +55,7 @@ def main():
                     print("NOT CONFIRMED", result)
                     print(out0[-800:] if rc0 else "", out2[-800:] if rc2 else "")
                 # refresh the stored patch against the current tree
-                rcd, diff = sh("git diff", cwd=wt)
+                rcd, diff = sh("git diff HEAD", cwd=wt)
                 result["patch_text"] = diff
         finally:
             sh("git -C /repo worktree remove --force %s" % wt)
